@@ -74,6 +74,7 @@ long xv_hs_calls; const SSL *xv_hs_ssl; _Bool xv_hs_connect; int xv_hs_ret;
 _Bool xv_ssl_hs_done;
 _Bool xv_ssl_peer_cert; long xv_ssl_verify_result;
 int xv_ssl_err; unsigned long xv_err_queue; int xv_ssl_last_ret; _Bool xv_ssl_close_seen;
+int xv_ssl_errno;                            /* errno as the last handshake/read/write call left it */
 long xv_sw_calls; const SSL *xv_sw_ssl; const void *xv_sw_buf; int xv_sw_num; int xv_sw_ret;
 long xv_sr_calls; const SSL *xv_sr_ssl; const void *xv_sr_buf; int xv_sr_num; int xv_sr_ret;
 long xv_x509_refs;
@@ -93,7 +94,7 @@ long xv_pending_calls; long xv_shutdown_calls; long xv_ssl_free_calls; const SSL
                             xv_get0_param_calls, xv_get0_param_ssl, xv_x509_flags, xv_x509_set_flags_calls
 #define XV_SSL_HOST_ASSIGNS xv_get0_param_calls, xv_get0_param_ssl, xv_x509_hostflags, xv_x509_set_hostflags_calls, \
                             xv_x509_nhosts, xv_x509_host_resets, xv_x509_add_calls, xv_x509_host_k
-#define XV_SSL_ERR_ASSIGNS xv_ssl_err, xv_err_queue, xv_ssl_last_ret, xv_ssl_close_seen
+#define XV_SSL_ERR_ASSIGNS xv_ssl_err, xv_err_queue, xv_ssl_last_ret, xv_ssl_close_seen, xv_ssl_errno
 #define XV_SSL_VERDICT_ASSIGNS xv_x509_refs, xv_peer_cert_calls, xv_verify_result_calls, xv_errstr_calls
 #define XV_SSL_HS_ASSIGNS xv_hs_calls, xv_hs_ssl, xv_hs_connect, xv_hs_ret, xv_ssl_hs_done, xv_ssl_peer_cert, xv_ssl_verify_result, XV_SSL_ERR_ASSIGNS
 #define XV_SSL_WRITE_ASSIGNS xv_sw_calls, xv_sw_ssl, xv_sw_buf, xv_sw_num, xv_sw_ret, XV_SSL_ERR_ASSIGNS
@@ -112,7 +113,7 @@ static inline void xv_ssl_havoc(void)
     xv_ssl_set_mode_calls = nondet_long(); xv_ssl_mode = nondet_long();
     xv_hs_calls = nondet_long(); xv_hs_ssl = (const SSL *)nondet_size_t(); xv_hs_connect = nondet_bool(); xv_hs_ret = nondet_int();
     xv_ssl_hs_done = nondet_bool(); xv_ssl_peer_cert = nondet_bool(); xv_ssl_verify_result = nondet_int();
-    xv_ssl_err = nondet_int(); xv_err_queue = (unsigned long)nondet_size_t(); xv_ssl_last_ret = nondet_int(); xv_ssl_close_seen = nondet_bool();
+    xv_ssl_err = nondet_int(); xv_err_queue = (unsigned long)nondet_size_t(); xv_ssl_last_ret = nondet_int(); xv_ssl_close_seen = nondet_bool(); xv_ssl_errno = nondet_int();
     xv_sw_calls = nondet_long(); xv_sw_ssl = (const SSL *)nondet_size_t(); xv_sw_buf = (const void *)nondet_size_t(); xv_sw_num = nondet_int(); xv_sw_ret = nondet_int();
     xv_sr_calls = nondet_long(); xv_sr_ssl = (const SSL *)nondet_size_t(); xv_sr_buf = (const void *)nondet_size_t(); xv_sr_num = nondet_int(); xv_sr_ret = nondet_int();
     xv_x509_refs = nondet_long(); xv_peer_cert_calls = nondet_long(); xv_verify_result_calls = nondet_long(); xv_errstr_calls = nondet_long();
@@ -207,7 +208,7 @@ static void xv_ssl_fail(int ret, _Bool via_bio)
     __CPROVER_assume(en >= 0);
     if (e == SSL_ERROR_SYSCALL && q == 0 && via_bio)
         __CPROVER_assume(en != EAGAIN && en != EWOULDBLOCK);
-    xv_errno = en;
+    xv_errno = en; xv_ssl_errno = en;
     xv_ssl_err = e; xv_err_queue = q; xv_ssl_last_ret = ret;
     /* the peer's close was seen: close_notify, or EOF/EPIPE from the transport underneath */
     xv_ssl_close_seen = (e == SSL_ERROR_ZERO_RETURN || (e == SSL_ERROR_SYSCALL && q == 0 && via_bio && (en == 0 || en == EPIPE)));
@@ -223,7 +224,7 @@ static int xv_ssl_handshake(SSL *ssl, _Bool is_connect)
     xv_hs_ret = r;
     if (r >= 1) {
         xv_ssl_hs_done = 1;
-        int en = nondet_int(); __CPROVER_assume(en >= 0); xv_errno = en;
+        int en = nondet_int(); __CPROVER_assume(en >= 0); xv_errno = en; xv_ssl_errno = en;
     } else
         xv_ssl_fail(r, 1);
     return r;
@@ -274,7 +275,7 @@ int SSL_write(SSL *ssl, const void *buf, int num)
     if (num < 0) {
         /* ssl/ssl_lib.c: SSL_write(): ERR_raise(SSL_R_BAD_LENGTH); return -1 */
         r = -1;
-        int en = nondet_int(); __CPROVER_assume(en >= 0); xv_errno = en;
+        int en = nondet_int(); __CPROVER_assume(en >= 0); xv_errno = en; xv_ssl_errno = en;
         xv_ssl_err = SSL_ERROR_SSL; xv_err_queue = 1; xv_ssl_last_ret = r; xv_ssl_close_seen = 0;
     } else if (num > 0 && r >= 1) {
         __CPROVER_assume(r <= num);
@@ -283,13 +284,13 @@ int SSL_write(SSL *ssl, const void *buf, int num)
             xv_tx_k_set = 1;
         }
         xv_tx_off += r;
-        int en = nondet_int(); __CPROVER_assume(en >= 0); xv_errno = en;
+        int en = nondet_int(); __CPROVER_assume(en >= 0); xv_errno = en; xv_ssl_errno = en;
     } else {
         r = nondet_bool() ? 0 : -1;
         if (num == 0 && nondet_bool()) {
             /* nothing to write: 0, no error queued, nothing wanted: SSL_get_error() says SYSCALL, errno untouched (A3) */
             r = 0;
-            xv_ssl_err = SSL_ERROR_SYSCALL; xv_err_queue = 0; xv_ssl_last_ret = r; xv_ssl_close_seen = 0;
+            xv_ssl_err = SSL_ERROR_SYSCALL; xv_err_queue = 0; xv_ssl_last_ret = r; xv_ssl_close_seen = 0; xv_ssl_errno = xv_errno;
         } else
             xv_ssl_fail(r, 1);
     }
@@ -306,7 +307,7 @@ int SSL_read(SSL *ssl, void *buf, int num)
     int r = nondet_int();
     if (num < 0) {
         r = -1;
-        int en = nondet_int(); __CPROVER_assume(en >= 0); xv_errno = en;
+        int en = nondet_int(); __CPROVER_assume(en >= 0); xv_errno = en; xv_ssl_errno = en;
         xv_ssl_err = SSL_ERROR_SSL; xv_err_queue = 1; xv_ssl_last_ret = r; xv_ssl_close_seen = 0;
     } else if (num > 0 && r >= 1) {
         __CPROVER_assume(r <= num);
@@ -315,14 +316,14 @@ int SSL_read(SSL *ssl, void *buf, int num)
         if (xv_k >= xv_rx_off && xv_k < xv_rx_off + r)
             ((uint8_t *)buf)[xv_k - xv_rx_off] = xv_rx_k;
         xv_rx_off += r;
-        int en = nondet_int(); __CPROVER_assume(en >= 0); xv_errno = en;
+        int en = nondet_int(); __CPROVER_assume(en >= 0); xv_errno = en; xv_ssl_errno = en;
     } else {
         r = nondet_bool() ? 0 : -1;
         if (num == 0 && nondet_bool()) {
             /* ssl3_read_bytes(): `if (len == 0) return 0` once a record is there: 0 bytes "read", no error queued, nothing
              * wanted: SSL_get_error() says SYSCALL; the BIO may not have been entered: errno untouched (A3) */
             r = 0;
-            xv_ssl_err = SSL_ERROR_SYSCALL; xv_err_queue = 0; xv_ssl_last_ret = r; xv_ssl_close_seen = 0;
+            xv_ssl_err = SSL_ERROR_SYSCALL; xv_err_queue = 0; xv_ssl_last_ret = r; xv_ssl_close_seen = 0; xv_ssl_errno = xv_errno;
         } else {
             xv_ssl_fail(r, 1);
             if (xv_ssl_close_seen)
@@ -338,7 +339,7 @@ int SSL_has_pending(const SSL *s) { xv_pending_calls++; return nondet_bool() ? 1
 int SSL_shutdown(SSL *s)
 {
     xv_shutdown_calls++;
-    int en = nondet_int(); __CPROVER_assume(en >= 0); xv_errno = en;
+    int en = nondet_int(); __CPROVER_assume(en >= 0); xv_errno = en; xv_ssl_errno = en;
     int r = nondet_int(); __CPROVER_assume(r >= -1 && r <= 1);
     return r;
 }
